@@ -6,6 +6,9 @@ macro_rules! smod {
     }
   };
 }
+smod!(crypto, "sec_crypto.rs");
 pub fn available() -> bool {
   true
 }
+smod!(auth, "sec_auth.rs");
+smod!(access, "sec_access.rs");
